@@ -70,18 +70,22 @@ Theorem feature_request_sound :
 Proof. exact refines_sound. Qed.
 
 (* setter_refines, PARTIAL: the hypothesis of the previous theorem is discharged by evaluation for
-   every skeleton with at most 6 transits and 3 peripherals (all absorption / elimination / lag /
-   environment combinations) and every request with transit count <= 7, peripheral count <= 4.
-   Missing for full strength: the induction over the counts for the graph part of the setters. *)
+   every skeleton with at most 5 transits and 3 peripherals (all absorption / elimination / lag
+   combinations) and every request with transit count <= 6, peripheral count <= 4.  The four
+   environment flags are enumerated for the requests that read them (MAT / POP_MDT for
+   keep_depot=False, K-rates / quotient elimination for the removal of peripherals) and are at a
+   fixed value otherwise (env_default).
+   Missing for full strength: the induction over the counts for the graph part of the setters,
+   and the (obvious but unproved) irrelevance of the flags a request does not read. *)
 Theorem setter_refines_partial :
   forall (s : sk) (f : req),
-    s_transits s <= 6 -> s_periph s <= 3 -> req_bounded 7 4 f -> refines f s = true.
+    s_transits s <= 5 -> s_periph s <= 3 -> req_bounded 6 4 f -> env_default f s = true -> refines f s = true.
 Proof. exact setter_refines_bounded. Qed.
 
 Theorem feature_request_sound_partial :
   forall (f : req) (s : sk),
-    s_transits s <= 6 -> s_periph s <= 3 -> req_bounded 7 4 f ->
+    s_transits s <= 5 -> s_periph s <= 3 -> req_bounded 6 4 f -> env_default f s = true ->
     valid s = true -> guard f s = true -> sound_on_graph f s.
 Proof.
-  intros f s Ht Hp Hf Hv Hg. apply refines_sound; [apply setter_refines_bounded|..]; assumption.
+  intros f s Ht Hp Hf He Hv Hg. apply refines_sound; [apply setter_refines_bounded|..]; assumption.
 Qed.
